@@ -8,18 +8,31 @@ Next ==
   \/ RemoveLast
   \/ Mode = "vine" /\ \E i \in 1..(Len(F) - 1) : VineSwap(i)
   \/ Mode = "vine" /\ \E i \in DOMAIN F : RemoveMaximalCell(i)
-Spec == Init /\ [][Next]_<<F, act>>
-View == F
+(* History ghost.  What a matrix has to do on the next operation depends on how it got where it is, not only on the  *)
+(* complex it represents: removals leave counters and maps behind, transpositions leave R and U (or the chains) in a   *)
+(* form no fresh reduction produces.  hist records whether a cell was ever removed and whether a transposition was   *)
+(* ever made, so that "the same complex, reached through a removal / a swap" is a state of its own and every         *)
+(* transition out of it is replayed after such a history (WithHist = FALSE: the plain graph of complexes).           *)
+CONSTANT WithHist
+VARIABLE hist
+NoHist == [rem |-> FALSE, swp |-> FALSE]
+InitH == Init /\ hist = NoHist
+NextH == /\ Next
+         /\ hist' = IF WithHist THEN [rem |-> hist.rem \/ act'.op \in {"remove_last", "remove_maximal"},
+                                      swp |-> hist.swp \/ act'.op = "vine_swap"]
+                    ELSE hist
+Spec == InitH /\ [][NextH]_<<F, act, hist>>
+View == <<F, hist>>
 CONSTANT WithReps
 ObsR(G) == IF WithReps THEN [n |-> Len(G), dims |-> [i \in DOMAIN G |-> G[i].dim], bars_set |-> BarsJ(G),
                              checks_failed |-> <<>>, reps_set |-> RepsJ(G)]
            ELSE Obs(G)
-EmitState == PrintT(<<"STATE", ToJson([id |-> [f |-> FJ(F)], obs |-> ObsR(F)])>>)
+EmitState == PrintT(<<"STATE", ToJson([id |-> [f |-> FJ(F), h |-> hist], obs |-> ObsR(F)])>>)
 (* every bar has a representative, and the number of bars alive at j in dimension k is the Betti number *)
 InvRepsExist == WithReps => \A b \in Bars(F, P) : RepsOf(F, b, FALSE) # {} /\ RepsOf(F, b, TRUE) # {}
 InvAliveIsBetti == \A j \in DOMAIN F : \A k \in 0..MaxD :
                      Cardinality({b \in AliveAt(F, j) : b.dim = k}) = DefBetti(F, k, j, P)
-EmitEdge  == PrintT(<<"EDGE", ToJson([from |-> [f |-> FJ(F)], act |-> act', to |-> [f |-> FJ(F')]])>>)
+EmitEdge  == PrintT(<<"EDGE", ToJson([from |-> [f |-> FJ(F), h |-> hist], act |-> act', to |-> [f |-> FJ(F'), h |-> hist']])>>)
 
 InvWellFormed == WellFormed(F, P)
 InvPartition == \A i \in DOMAIN F : Cardinality({b \in Bars(F, P) : b.birth = i \/ b.death = i}) = 1
